@@ -1,1 +1,30 @@
 package main
+
+import (
+	"fmt"
+	"os"
+	"strings"
+
+	"golang.org/x/tools/go/ssa"
+)
+
+func init() {
+	debugHooks = append(debugHooks, func(c *Ctx) {
+		p := c.P
+		if os.Getenv("GQLVET_GLOBALS") == "" {
+			return
+		}
+		for _, fn := range p.Funcs() {
+			if !p.inModule(fn) {
+				continue
+			}
+			allInstrs(fn, func(in ssa.Instruction) {
+				for _, op := range in.Operands(nil) {
+					if g, ok := (*op).(*ssa.Global); ok && g.Pkg != nil && strings.HasPrefix(g.Pkg.Pkg.Path(), modPath) {
+						fmt.Printf("%s: %s uses global %s in %T\n", p.Pos(in.Pos()), p.FuncName(fn), g.Name(), in)
+					}
+				}
+			})
+		}
+	})
+}
